@@ -1119,6 +1119,13 @@ class Normalizer:
 
     def _stmt(self, st, cls, depth) -> List[ast.stmt]:
         pre: List[ast.stmt] = []
+        if isinstance(st, (ast.Return, ast.Assign, ast.Expr, ast.AugAssign)) and st.value is not None:
+            for n in ast.walk(st.value):
+                if isinstance(n, ast.Call) and isinstance(n.func, ast.Attribute) and n.func.attr == "join" and len(n.args) == 1 and not n.keywords \
+                        and self._gen_target(n.args[0], cls) is not None:
+                    # sep.join(self._lines(..)) consumes the generator helper like sep.join(list(self._lines(..)))
+                    n.args = [ast.copy_location(ast.Call(func=ast.Name(id="list", ctx=ast.Load()), args=[n.args[0]], keywords=[]), n.args[0])]
+                    ast.fix_missing_locations(n)
         # `it = chain(a, b)` / `it = (x, y)` ... `for v in it:` loops over that expression (remembered until `it` is stored again)
         binds = getattr(self, "_iter_bind", None)
         if binds is None:
@@ -1612,6 +1619,11 @@ class Normalizer:
             elif isinstance(e, (ast.ListComp, ast.SetComp, ast.DictComp, ast.GeneratorExp)):
                 e.generators[0].iter = self._hoist(e.generators[0].iter, pre, cls, depth, st)
             return e
+        if isinstance(e, ast.Call) and isinstance(e.func, ast.Attribute) and e.func.attr == "join" and len(e.args) == 1 and not e.keywords \
+                and self._gen_target(e.args[0], cls) is not None:
+            # sep.join(self._lines(..)) consumes the generator helper like sep.join(list(self._lines(..)))
+            e.args = [ast.copy_location(ast.Call(func=ast.Name(id="list", ctx=ast.Load()), args=[e.args[0]], keywords=[]), e.args[0])]
+            ast.fix_missing_locations(e)
         if isinstance(e, ast.BoolOp):
             e.values[0] = self._hoist(e.values[0], pre, cls, depth, st)
             return e
